@@ -255,6 +255,28 @@ pub fn run(tier: &str) -> Result<Report, String> {
             }
         }
     }
+    // deeper shapes over a tiny alphabet (sibling quantifiers re-using a depth name, free variables
+    // first occurring after them, jumps), and the template families
+    {
+        use crate::formulas::{duplicate_templates, templates, Alphabet, Gen};
+        let nm = Names::minimized(&["a".to_string(), "b".to_string()]);
+        let alpha = Alphabet { consts: vec![], nprops: 1, nwilds: 0, ndoms: 0, un: vec![Un::AX], bi: vec![Bi::And], quant: vec![Hy::Exists], jump: true, maxdepth: 3 };
+        let mut g = Gen::new(alpha);
+        let mut deep: Vec<crate::formulas::F> = g.closed_up_to(if tier == "quick" { 7 } else { 8 });
+        let n_deep = deep.len();
+        deep.extend(templates(&Names::user(&["a".to_string(), "b".to_string()]), true, if tier == "quick" { 3 } else { 8 }));
+        deep.extend(duplicate_templates(1, if tier == "quick" { 4 } else { 5 }, false, true));
+        rep.set("deep_tiny_alphabet_formulae", json!(n_deep));
+        rep.set("template_formulae", json!(deep.len() - n_deep));
+        for f in &deep {
+            let t = T::from_lib(&f.to_tree(&nm));
+            let mut v = vec![];
+            t.subtrees(&mut v);
+            for s in v {
+                subs.insert(s.clone());
+            }
+        }
+    }
     formulas.sort();
     formulas.dedup();
     let subs: Vec<T> = subs.into_iter().collect();
@@ -385,6 +407,6 @@ pub fn run(tier: &str) -> Result<Report, String> {
     rep.violations.extend(lb.into_iter().take(40));
     rep.sample(json!({"subtree": "(AX {xx})", "canonical": get_canonical("(AX {xx})".to_string())}));
     rep.sample(json!({"marking_list": [pool[1].render(), pool[5].render()]}));
-    rep.rule = format!("every distinct sub-tree of every well-scoped, preprocessed formula with <= {s_max} nodes (plain alphabet) / <= 4 nodes (with wild-cards and two domain labels): canonical form vs independent normal form as a partition (= all pairs), explicit all-pairs structural alpha-equivalence on up to {cap} sub-trees, renaming total/injective/consistent on free variables, idempotence; duplicate marking of every single formula and of every list of <= 3 formulae over a {n}-formula pool (collision alphabet + jump/domain shapes) against an independent occurrence count with domains of free variables; distinct_nontrivial = number of alpha-equivalence classes");
+    rep.rule = format!("every distinct sub-tree of every well-scoped, preprocessed formula with <= {s_max} nodes (plain alphabet) / <= 4 nodes (with wild-cards and two domain labels), of every closed formula with <= 7 (thorough 8) nodes over the tiny alphabet {{a, AX, &, 3, @}} (sibling quantifiers sharing a depth name), and of the template families: canonical form vs independent normal form as a partition (= all pairs), explicit all-pairs structural alpha-equivalence on up to {cap} sub-trees, renaming total/injective/consistent on free variables, idempotence; duplicate marking of every single formula and of every list of <= 3 formulae over a {n}-formula pool (collision alphabet + jump/domain shapes) against an independent occurrence count with domains of free variables; distinct_nontrivial = number of alpha-equivalence classes");
     Ok(rep)
 }
